@@ -90,7 +90,10 @@ RP0 == [ shape |-> "", sid |-> 0, cstart |-> FALSE, started |-> FALSE, startFail
          hHdr |-> MD0, hHdrPend |-> MD0, hHdrBusy |-> FALSE, hTrl |-> MD0, hRet |-> NoClose, hRetStarted |-> FALSE,
          hResp |-> -1,
          secondSendC |-> "none", secondSendS |-> "none",
-         hdrBad |-> FALSE, hdrLate |-> FALSE, failFastBad |-> FALSE, afterDone |-> FALSE ]
+         hdrBad |-> FALSE, hdrLate |-> FALSE, failFastBad |-> FALSE, afterDone |-> FALSE,
+         \* identity accessors (C17)
+         idC |-> FALSE, tmdC |-> MD0, chctx |-> 0, hasChopt |-> FALSE, chopt |-> 0,
+         idS |-> FALSE, tmdS |-> MD0, peerS |-> "", ivalS |-> "" ]
 
 Tun0 == [ opened |-> FALSE, started |-> FALSE, startFail |-> FALSE, chdone |-> FALSE, chErr |-> "none",
           serveRet |-> FALSE, serveCls |-> "none", causes |-> {},
@@ -100,7 +103,7 @@ Tun0 == [ opened |-> FALSE, started |-> FALSE, startFail |-> FALSE, chdone |-> F
           firstCause |-> "", lastBlocked |-> <<>>, doneAtTeardown |-> TRUE,
           \* what the tunnel endpoints must have concluded from the frames delivered so far
           srvLastSeen |-> -1, srvMustDie |-> FALSE, cliMustDie |-> FALSE, cliMustFailStart |-> FALSE,
-          s2cDeliv |-> 0, idleC2S |-> -1, idleS2C |-> -1, takenC2S |-> 0, takenS2C |-> 0, revUsed |-> -1 ]
+          s2cDeliv |-> 0, idleC2S |-> -1, idleS2C |-> -1, takenC2S |-> 0, takenS2C |-> 0, revUsed |-> -1, chid |-> 0 ]
 
 Q0 == [ at |-> FALSE, final |-> FALSE, blocked |-> <<>>, h |-> <<>>, parked |-> <<>>, ctab |-> -1, stab |-> 0,
         nsrv |-> 0, qc2s |-> 0, qs2c |-> 0, g |-> -1, chdone |-> FALSE ]
@@ -446,7 +449,11 @@ OOpRet(e) ==
      IN rp' = SetRP(e.rpc,
           IF e.end = "c" THEN
             CASE e.op = "new" ->
-                   IF e.cls = "ok" THEN [ r EXCEPT !.started = TRUE, !.failFastBad = r.afterDone ]
+                   IF e.cls = "ok"
+                   THEN [ r EXCEPT !.started = TRUE, !.failFastBad = r.afterDone,
+                                   !.idC = "tmd" \in DOMAIN e, !.tmdC = IF "tmd" \in DOMAIN e THEN e.tmd ELSE MD0,
+                                   !.chctx = IF "chctx" \in DOMAIN e THEN e.chctx ELSE 0,
+                                   !.hasChopt = "chopt" \in DOMAIN e, !.chopt = IF "chopt" \in DOMAIN e THEN e.chopt ELSE 0 ]
                    ELSE [ r EXCEPT !.startFail = TRUE ]
               [] e.op = "invoke" ->
                    LET r1 == IF e.cls = "ok"
@@ -454,7 +461,8 @@ OOpRet(e) ==
                              ELSE r
                        \* an OK Invoke is the terminal result EOF after exactly one message
                        r2 == Terminal(r1, IF e.cls = "ok" THEN [e EXCEPT !.cls = "eof"] ELSE e)
-                   IN [ r2 EXCEPT !.failFastBad = r.afterDone /\ e.cls = "ok", !.trlSeen = "trlT" \in DOMAIN e, !.hasTrlT = "trlT" \in DOMAIN e,
+                   IN [ r2 EXCEPT !.failFastBad = r.afterDone /\ e.cls = "ok", !.trlSeen = "trlT" \in DOMAIN e,
+                                  !.hasChopt = "chopt" \in DOMAIN e /\ e.cls = "ok", !.chopt = IF "chopt" \in DOMAIN e THEN e.chopt ELSE 0, !.hasTrlT = "trlT" \in DOMAIN e,
                                   !.trlT = IF "trlT" \in DOMAIN e THEN e.trlT ELSE MD0,
                                   !.trl = IF "trlT" \in DOMAIN e THEN e.trlT ELSE MD0,
                                   !.hasHdrT = "hdrT" \in DOMAIN e,
@@ -503,7 +511,10 @@ OOpRet(e) ==
 
 OInvoked(e) ==
   /\ LET r == RPof(e.rpc)
-     IN rp' = SetRP(e.rpc, [ r EXCEPT !.inv = @ + 1, !.invShape = e.shape, !.invMethod = e.method, !.invMD = e.md ])
+     IN rp' = SetRP(e.rpc, [ r EXCEPT !.inv = @ + 1, !.invShape = e.shape, !.invMethod = e.method, !.invMD = e.md,
+                                     !.idS = "ival" \in DOMAIN e, !.tmdS = IF "tmd" \in DOMAIN e THEN e.tmd ELSE MD0,
+                                     !.peerS = IF "peer" \in DOMAIN e THEN e.peer ELSE "",
+                                     !.ivalS = IF "ival" \in DOMAIN e THEN e.ival ELSE "" ])
   /\ QOff
   /\ UNCHANGED <<cfg, ws, tun, bad, now, meta>>
 
@@ -569,7 +580,7 @@ OCar(e) ==
   /\ UNCHANGED <<cfg, rp, bad, now, meta>>
 
 OTun(e) ==
-  /\ tun' = CASE e.what = "started"   -> [ tun EXCEPT !.started = TRUE ]
+  /\ tun' = CASE e.what = "started"   -> [ tun EXCEPT !.started = TRUE, !.chid = IF "ch" \in DOMAIN e THEN e.ch ELSE @ ]
               [] e.what = "startfail" -> [ tun EXCEPT !.startFail = TRUE, !.chErr = e.cls ]
               [] e.what = "chdone"    -> [ tun EXCEPT !.chdone = TRUE, !.chErr = e.cls ]
               [] e.what = "serveret"  -> [ tun EXCEPT !.serveRet = TRUE, !.serveCls = e.cls ]
@@ -615,6 +626,12 @@ OSkip ==
   /\ QOff
   /\ UNCHANGED <<cfg, ws, rp, tun, bad, now, meta>>
 
+\* registry callbacks of a reverse tunnel: the channel becomes known
+OReg(e) ==
+  /\ tun' = IF e.what = "open" /\ tun.chid = 0 THEN [ tun EXCEPT !.chid = e.ch ] ELSE tun
+  /\ QOff
+  /\ UNCHANGED <<cfg, ws, rp, bad, now, meta>>
+
 \* the receive loop of the receiving end of direction e.dir asks for the next frame: it has
 \* finished processing frame number e.n
 OIdle(e) ==
@@ -641,6 +658,7 @@ OEvent(e) ==
     [] e.ev = "step"      -> OStep(e)
     [] e.ev = "scenario"  -> OScenario(e)
     [] e.ev = "wire.idle" -> OIdle(e)
+    [] e.ev = "reg"       -> OReg(e)
     [] OTHER              -> OSkip
 
 ---------------------------------------------------------------------------
@@ -950,6 +968,26 @@ C09_BoundedBuffer ==
      /\ (RealCli /\ ~RealSrv /\ ws[s].rev = 1 /\ ws[s].news > 0 /\ CliAlive) =>
            (ws[s].sDataSum - ws[s].cWuSum <= W \/ ws[s].cliEnd # "")
 
+\* ---- C17 -------------------------------------------------------------------
+\* the metadata that opened the tunnel: what the opener attached plus the negotiation marker
+Negotiate == [k \in {"_", "grpctunnel-negotiate"} |-> IF k = "_" THEN <<>> ELSE <<"on">>]
+OpeningMD == IF "tmd" \in DOMAIN cfg THEN MDJoin(cfg.tmd, Negotiate) ELSE Negotiate
+BothReal == RealCli /\ RealSrv
+\* every observation equals the opening metadata - also the ones made after earlier results of the
+\* accessors were mutated by the application (private copies)
+C17_HandlerSeesTunnelMD == BothReal => \A r \in ORpcs : (rp[r].idS => MDEq(rp[r].tmdS, OpeningMD))
+C17_CallerSeesOpeningMD == BothReal => \A r \in ORpcs : (rp[r].idC => MDEq(rp[r].tmdC, OpeningMD))
+C17_PrivateCopies == C17_HandlerSeesTunnelMD /\ C17_CallerSeesOpeningMD /\ C02_RequestMD
+\* the handler's context derives from the tunnel-opening call's: same peer, same interceptor-set values
+C17_HandlerSeesPeerAndValues ==
+  BothReal => \A r \in ORpcs : (rp[r].idS =>
+     (IF cfg.dir = "fwd" THEN rp[r].peerS = "10.0.0.1:1234" /\ rp[r].ivalS = "iv-server"
+      ELSE rp[r].ivalS = "iv-client"))
+\* the caller recovers exactly the channel that carried the RPC
+C17_CallerSeesCarryingChannel ==
+  BothReal => \A r \in ORpcs : /\ ((rp[r].idC /\ tun.chid # 0) => rp[r].chctx = tun.chid)
+                                 /\ ((rp[r].hasChopt /\ tun.chid # 0) => rp[r].chopt = tun.chid)
+
 \* ---- C08 (stale ids) -------------------------------------------------------
 C08_StaleIdEndsTunnel == C09_SrvTunnelLevel
 
@@ -994,7 +1032,10 @@ Formulas == [
   C08_ExactlyOneWhenCompleted |-> C08_ExactlyOneWhenCompleted, C08_StaleIdEndsTunnel |-> C08_StaleIdEndsTunnel,
   C09_SrvTunnelLevel |-> C09_SrvTunnelLevel, C09_CliTunnelLevel |-> C09_CliTunnelLevel,
   C09_SrvStreamLevel |-> C09_SrvStreamLevel, C09_CliStreamLevel |-> C09_CliStreamLevel,
-  C09_CliReleased |-> C09_CliReleased, C09_NotWedged |-> C09_NotWedged, C09_BoundedBuffer |-> C09_BoundedBuffer
+  C09_CliReleased |-> C09_CliReleased, C09_NotWedged |-> C09_NotWedged, C09_BoundedBuffer |-> C09_BoundedBuffer,
+  C17_HandlerSeesTunnelMD |-> C17_HandlerSeesTunnelMD, C17_CallerSeesOpeningMD |-> C17_CallerSeesOpeningMD,
+  C17_PrivateCopies |-> C17_PrivateCopies, C17_HandlerSeesPeerAndValues |-> C17_HandlerSeesPeerAndValues,
+  C17_CallerSeesCarryingChannel |-> C17_CallerSeesCarryingChannel
 ]
 
 =============================================================================
